@@ -88,7 +88,7 @@ def run(bdir, tier, known_ids, deadline):
     def viol(why, msg, data):
         c = cls.setdefault(why, {'key': why + '|', 'count': 0, 'is_known': 0}); c['count'] += 1
         if c['count'] <= 2:
-            res['violations'].append({'sub': 'file', 'why': why, 'known': '', 'cfg': '', 'msg': msg[:190], 'text': repr(data[:120])[2:-1], 'hex': data[:3000].hex() if len(data) <= 3000 else ''})
+            res['violations'].append({'sub': 'file', 'why': why, 'known': '', 'cfg': '', 'msg': msg[:190], 'text': repr(data[:120])[2:-1], 'hex': data.hex() if len(data) <= 400000 else ''})
     L, longs = line_menu(thorough)
     terms = [b'\n', b'\r\n']
     files = [b'', b'\x00\n', b'a\x00b@c.com\n', b'\n', b'\r\n', b'\r', b'#only comment', b'#\n#\n']
@@ -112,6 +112,15 @@ def run(bdir, tier, known_ids, deadline):
                     body = (lead * ((n - 9) // len(lead)) + b'a' * ((n - 9) % len(lead)) + b'@test.com')
                     files.append(body + t + b'ok@test.com' + t)
                     files.append(body + t + b'#c' + t + b'bad..x@test.com')
+    # UTF-8 strictness through the tool (bin/utf8_decode.c interposes the library's decoder when linked shared): every 2-byte
+    # sequence with a non-ASCII lead, boundary 3- and 4-byte sequences, as bare and quoted local parts - thousands of lines per file
+    def utf8_file(seqs, fmt):
+        return b''.join(fmt % q + b'\n' for q in seqs if b'\n' not in q and b'\x00' not in q)
+    two = [bytes([a, b]) for a in range(0xc0, 0x100) for b in list(range(0x80, 0x100)) + [0x41, 0x7f, 0x22]]
+    three = [bytes([a, b, c]) for a in (0xe0, 0xe1, 0xec, 0xed, 0xee, 0xef) for b in (0x7f, 0x80, 0x9f, 0xa0, 0xb0, 0xbf, 0xc0) for c in (0x7f, 0x80, 0xbf, 0xc0)]
+    four = [bytes([a, b, c, d]) for a in (0xf0, 0xf1, 0xf3, 0xf4, 0xf5, 0xf8) for b in (0x7f, 0x80, 0x8f, 0x90, 0xbf, 0xc0) for c in (0x80, 0xbf, 0x41) for d in (0x80, 0xbf, 0x41)]
+    for seqs in (two, three, four):
+        files.append(utf8_file(seqs, b'a%sb@test.com')); files.append(utf8_file(seqs, b'"%s"@test.com')); files.append(utf8_file(seqs, b'x@%s.com'))
     seen = set(); uniq = []
     for f in files:
         if f not in seen: seen.add(f); uniq.append(f)
